@@ -29,20 +29,20 @@ OPS = ([("set", k, v) for k in ("a", "z", "m") for v in ("5", '"s"', "{ k = 1; }
        + [("del", k) for k in ("a", "z", "m", "b")] + [("get", k) for k in ("a", "m", "zz")]
        + [("del", "enable"), ("ndel", "b", "enable"), ("sdel", "x"),
           # the CLI edits on the same live document: the mapping must stay coherent with the text through them as well
-          ("rm", "a.b"), ("rm", "m.x"), ("rm", "s.t.u"), ("cset", "a.c", "5"), ("cset", "m.zz", "5"),
+          ("rm", "a.b"), ("rm", "m.x"), ("rm", "s.t.u"), ("cset", "a.c", "5"), ("cset", "m.zz", "5"), ("rm", "@@u"),
           ("nset", "m", "zz", "5"), ("ndel", "m", "x"), ("nset", "a", "k", "5"), ("sset", "v", "5"), ("sdel", "v"), ("sset", "nw", "5"), ("sget", "v")])
 
 
 def docs(tier):
     for d, t in E.documents(tier):
         w, c = d.split("/")
-        if w in ("bare", "lambda", "let", "lambda-call", "let2", "rec", "let-twins") and c in ("flat", "nested", "attrpath", "attrpath1", "comments", "attrpath-deep", "inline", "twins", "attrpath-interleaved"):
+        if w in ("bare", "lambda", "let", "lambda-call", "let2", "rec", "let-twins", "let2-notes-single") and c in ("flat", "nested", "attrpath", "attrpath1", "comments", "attrpath-deep", "inline", "twins", "attrpath-interleaved"):
             yield d, t
         elif w in ("bare", "lambda") and c in ("set-and-attrpath", "set-and-attrpath-deep"):
             yield d, t
 
 
-def eval_script(doc_id, text, script):
+def eval_script(doc_id, text, script, lookups=True):
     from nix_manipulator import parse
     from nix_manipulator.cli.manipulations import _resolve_target_set
 
@@ -71,7 +71,10 @@ def eval_script(doc_id, text, script):
             elif kind == "cset":
                 E.run_op(src, "set", op[1], op[2])
             elif kind in ("sset", "sdel", "sget"):
-                target = _resolve_target_set(src)
+                from nix_manipulator.expressions.set import AttributeSet as _AS
+
+                # the document's own expression when it is the (let-wrapped) set itself, as a user of the API reaches it
+                target = src.expr if isinstance(src.expr, _AS) else _resolve_target_set(src)
                 if kind == "sset":
                     target.scope[op[1]] = PYVALS[op[2]]
                 elif kind == "sdel":
@@ -106,6 +109,13 @@ def eval_script(doc_id, text, script):
                 if op[2] not in model[op[1]]:
                     raise KeyError(op[2])
                 del model[op[1]][op[2]]
+            elif kind == "rm" and op[1].startswith("@"):
+                depth, names = E.parse_path(op[1])
+                if depth > len(layers) or names[0] not in layers[len(layers) - depth]:
+                    raise KeyError(op[1])
+                del layers[len(layers) - depth][names[0]]
+                if not layers[len(layers) - depth]:
+                    del layers[len(layers) - depth]
             elif kind in ("rm", "cset"):
                 names = E.parse_path(op[1])[1]
                 roots = {k_ for k_ in model if E.is_attrpath_root(before_text, k_)}
@@ -156,7 +166,9 @@ def eval_script(doc_id, text, script):
         if lay != layers:
             return f"step{k}:{kind}:scope-text-and-model-disagree"
         # ---- lookups agree with model (recursively through nested sets: the text shows exactly what the mapping reports)
-        sym = _lookups_agree(src, model, 0)
+        # (a lookup can itself repair state - it re-attaches owners and contexts - so histories with CLI edits are also run
+        # without any lookup between the steps: `lookups=False`)
+        sym = _lookups_agree(src, model, 0) if lookups else None
         if sym:
             return f"step{k}:{kind}:{sym}"
     return None
@@ -188,6 +200,10 @@ def _chunk(items):
     for d, t, s in items:
         try:
             sym = eval_script(d, t, s)
+            if not sym and any(op[0] in ("rm", "cset") for op in s):
+                sym = eval_script(d, t, s, lookups=False)
+                if sym:
+                    sym += "(no-lookups-between-the-steps)"
         except Exception as e:
             sym = f"harness-error:{type(e).__name__}:{e}"
         if sym:
@@ -253,7 +269,8 @@ def replay(v):
         from bounded import livefresh
 
         return livefresh.replay("C14", v)
-    sym = eval_script(i.get("doc", "r/r"), i["text"], [tuple(x) for x in i["script"]])
+    sc = [tuple(x) for x in i["script"]]
+    sym = eval_script(i.get("doc", "r/r"), i["text"], sc) or eval_script(i.get("doc", "r/r"), i["text"], sc, lookups=False)
     print(i, "->", sym)
     if sym:
         print("VIOLATION property=C14 replay=<given>")
